@@ -10,11 +10,11 @@ import (
 )
 
 type aboard struct {
-	n                  int
-	sq                 [][]tak.Square // [y][x], top first
-	ws, wc, bs, bc     int
-	ply                int
-	blackWinsTies      bool
+	n              int
+	sq             [][]tak.Square // [y][x], top first
+	ws, wc, bs, bc int
+	ply            int
+	blackWinsTies  bool
 }
 
 func absOf(p *tak.Position) *aboard {
